@@ -202,6 +202,10 @@ func (f *Frame) callByContract(ns *nodeState, x *ssa.Call, fc *FuncContract, fn 
 		lv := pre.lvalue(m.Expr)
 		cur := ex.loadLV(ns.st, lv)
 		fresh := vc.Declare(f.prefix+"mod_"+sanitize(m.Text), cur.Sort)
+		if cur.Sort.Kind == KData && cur.Sort.Role == "slice" {
+			// a callee can write the elements of a slice it is given, not the caller's slice header
+			vc.Assume(And(Eq(slLen(fresh), slLen(cur)), Eq(slNil(fresh), slNil(cur))), "a modified slice keeps its length")
+		}
 		ex.storeLV(ns.st, lv, fresh)
 	}
 	// results
@@ -451,7 +455,9 @@ var inlineExternals = map[string]bool{
 }
 
 var pureExternalPrefixes = []string{"fmt.Sprintf", "fmt.Sprint", "fmt.Errorf", "fmt.Fprintf", "fmt.Printf", "fmt.Println", "log.Printf", "log.Println", "log.Print",
-	"(*log.Logger).", "strconv.Itoa", "strings.Repeat", "slices.Contains", "slices.Index"}
+	"(*log.Logger).", "strconv.Itoa", "strings.Repeat", "slices.Contains",
+	// the sorted map of go-sortedmap is an opaque library object: its observers return arbitrary values
+	"(*github.com/tobshub/go-sortedmap.SortedMap[K, V]).Map", "(*github.com/tobshub/go-sortedmap.SortedMap[K, V]).Keys"}
 
 type extHandler func(f *Frame, ns *nodeState, x *ssa.Call, fn *ssa.Function, args []Val) []Val
 
